@@ -10,7 +10,6 @@ package ctlog_test
 // generated case always yields the same bytes.
 
 import (
-	"strings"
 	"crypto"
 	"crypto/ecdsa"
 	"crypto/elliptic"
@@ -24,6 +23,7 @@ import (
 	"io"
 	"math/big"
 	"os"
+	"strings"
 	"sync"
 	"time"
 
